@@ -3,7 +3,7 @@
 # filed seeded change applied (no suite run, no filing).  Prints the check's output; exit code is the
 # check's.  The scratch copy and its build output are removed afterwards.
 set -u
-sid=$1; chk=${2:-$(echo "$sid" | sed 's/.$//')}; tier=${3:-quick}
+sid=$1; chk=${2:-$(echo "$sid" | cut -c1-3)}; tier=${3:-quick}
 w=$(mktemp -d /tmp/ufw-try-XXXXXX)
 rsync -a --exclude _build --exclude .git /repo/ "$w/"
 if ! (cd "$w" && patch -p1 --no-backup-if-mismatch -s < "/verif/seeded/$sid/patch.diff"); then
